@@ -25,7 +25,7 @@ RULE = (
     'rows must EQUAL the set of maximal clean rain-free runs of >=2 samples '
     '(both inclusions).  Time steps of one second, one day and two days; '
     'long records: one storm/rise motif at every position of a quiet '
-    '1100-step record and within 4 steps of every multiple of 500 or 512 of '
+    '1100-step record and within 5 steps of every multiple of 500 or 512 of '
     'an 8300-step record (thorough: every position of it), the long '
     'recessions before and after it being the interstorm intervals.  '
     'States = automaton steps (samples).  Non-trivial = '
